@@ -65,7 +65,8 @@ class OrderedWeakSet:
         live = [r() for r in self._refs if r() is not None]
         if self.order:
             o = self.order
-            live.sort(key=lambda b: o.index(b.name) if b.name in o else len(o))
+            nm = lambda b: getattr(b, 'label', None) or b.name
+            live.sort(key=lambda b: o.index(nm(b)) if nm(b) in o else len(o))
         return iter(live)
 
     def __contains__(self, x):
